@@ -42,6 +42,18 @@ def records(wd, tier):
             items.append({"g": gr, "gid": f"A3-{gi}-{k}", "cdoms": cd,
                           "evs": singles[(gi + k) % 3:: 3] + ps[:6],
                           "cevs": [[[p[0]], [p[1]]] for p in ps[6:]] + [[[p[1]], [p[0]]] for p in ps[6:9]]})
+    # a domain tagged with the target's own population (an experiment in the target): policy on a node without
+    # bidirected edges, graph unchanged, together with one ordinary domain
+    for gi, gr in enumerate(graphs):
+        free = [v for v in gr["n"] if not any(v in e for e in gr["b"])]
+        if not free:
+            continue
+        zv = free[gi % len(free)]
+        others = [v for v in gr["n"] if v != zv]
+        cd = [{"s": [], "z": [zv], "star": True}, {"s": [others[gi % 2]], "z": []}]
+        ps = pairs[(gi * 17) % 89:: 89][:10]
+        items.append({"g": gr, "gid": f"A3-{gi}-star", "cdoms": cd, "evs": singles[gi % 2:: 2] + ps[:5],
+                      "cevs": [[[p[0]], [p[1]]] for p in ps[5:]]})
     shards = [items[i::NCPU] for i in range(NCPU)]
     jobs = []
     for i, sh in enumerate(shards):
